@@ -517,3 +517,26 @@ pub(crate) fn op_machine(rest: &str, src: &str) -> Result<String, String> {
         hex(&lines.join("\n"))
     ))
 }
+
+// ---- helpers for src/verif_runner.rs
+
+pub(crate) fn verif_items_sexp(items: &[ToplevelItem]) -> String {
+    items_sexp(items)
+}
+
+pub(crate) fn verif_value_short(v: &Value) -> String {
+    value_short(v, 0)
+}
+
+pub(crate) fn verif_err_short(e: &EvalError) -> String {
+    err_short(e)
+}
+
+pub(crate) fn verif_trace_begin(want_trace: bool) {
+    INTERRUPT_AT.with(|ia| ia.borrow_mut().clear());
+    TRACE.with(|t| *t.borrow_mut() = if want_trace { Some(vec![]) } else { None });
+}
+
+pub(crate) fn verif_trace_take() -> Vec<String> {
+    TRACE.with(|t| t.borrow_mut().take()).unwrap_or_default()
+}
